@@ -78,6 +78,14 @@ func genC18(ref core.CaseRef, r *rand.Rand) *c18Batch {
 			b.Sink = "panicking"
 		}
 	}
+	if ref.Index%12 == 0 || ref.Index%12 == 2 { // direct / analytic queries
+		if ref.Index%24 < 12 {
+			b.Mode = "syncstop"
+			b.Strategy = pick(r, []string{"drop", "block", "expand"})
+			b.Sink = "slow"
+			b.BlockMs = 2
+		}
+	}
 	if q.Name == "cep" && r.Intn(2) == 0 {
 		b.Mode = "flush"
 		b.Strategy = "block"
@@ -254,6 +262,9 @@ func childC18(ctx *core.Ctx, raw []byte) {
 		return Row{"id": p*1000000 + j, "k": plainKeys[(p+j)%3], "v": v, "ts": baseTs + int64(j)*40}
 	}
 	switch b.Mode {
+	case "syncstop":
+		s.Stop() // the instance created above is not used: this mode runs several short-lived instances
+		c18SyncStop(ctx, &b, viol)
 	case "survival":
 		c18Survival(ctx, &b, s, viol, &delivered)
 	case "flush":
@@ -495,4 +506,70 @@ func c18Flush(ctx *core.Ctx, b *c18Batch, s *streamsql.Streamsql, viol func(stri
 	}
 	ctx.Count("flush_batches", 1)
 	ctx.Count("flush_matches_delivered_at_stop", after)
+}
+
+// c18SyncStop: Stop must join EmitSync calls that are in flight.  Several short-lived instances; each has
+// three slow synchronous sinks (so an EmitSync call spends most of its time between two sinks), callers
+// that do nothing but EmitSync, and a Stop after a few milliseconds.  A flag is set only AFTER Stop
+// returned; a sink entered after that is a violation.
+func c18SyncStop(ctx *core.Ctx, b *c18Batch, viol func(string, string)) {
+	rounds := 8
+	var overlaps, after int64
+	var detail atomic.Value
+	for round := 0; round < rounds; round++ {
+		s, err := eng.New(b.SQL, eng.Opts{Strategy: b.Strategy, DataChan: 4, ResultChan: 2, SinkPool: 2, SinkWorkers: 2, BlockTimeout: 2 * time.Millisecond})
+		if err != nil {
+			viol("lifecycle.execute_error", err.Error())
+			return
+		}
+		var stopped int32
+		var inSync int64
+		for k := 0; k < 3; k++ {
+			k := k
+			s.AddSyncSink(func(batch []map[string]any) {
+				if atomic.LoadInt32(&stopped) == 1 {
+					atomic.AddInt64(&after, 1)
+					detail.Store(fmt.Sprintf("synchronous sink #%d was entered (for row %v) after Stop() had returned: an EmitSync call in flight was not joined", k+1, batch[0]["id"]))
+				}
+				time.Sleep(200 * time.Microsecond)
+			})
+		}
+		var wg sync.WaitGroup
+		quit := make(chan struct{})
+		for p := 0; p < 3; p++ {
+			wg.Add(1)
+			go func(p int) {
+				defer wg.Done()
+				defer func() { _ = recover() }()
+				for j := 0; ; j++ {
+					select {
+					case <-quit:
+						return
+					default:
+					}
+					atomic.AddInt64(&inSync, 1)
+					_, err := s.EmitSync(Row{"id": p*1000000 + j, "k": plainKeys[j%3], "v": j%50 + 1, "ts": baseTs + int64(j)})
+					atomic.AddInt64(&inSync, -1)
+					if err != nil && atomic.LoadInt32(&stopped) == 1 {
+						return // EmitSync refuses after Stop
+					}
+				}
+			}(p)
+		}
+		time.Sleep(time.Duration(2+round) * time.Millisecond)
+		if atomic.LoadInt64(&inSync) > 0 {
+			atomic.AddInt64(&overlaps, 1)
+		}
+		s.Stop()
+		atomic.StoreInt32(&stopped, 1)
+		time.Sleep(3 * time.Millisecond) // a call that was not joined is still between two slow sinks
+		close(quit)
+		wg.Wait()
+	}
+	if n := atomic.LoadInt64(&after); n > 0 {
+		d, _ := detail.Load().(string)
+		viol("lifecycle.sink_after_stop", fmt.Sprintf("%d sink invocations after Stop() had returned in %d rounds; %s", n, rounds, d))
+	}
+	ctx.Count("syncstop_rounds", int64(rounds))
+	ctx.Count("stop_overlapped_emit", atomic.LoadInt64(&overlaps))
 }
